@@ -54,6 +54,8 @@ T = [
 ("C03","fix: MemFS.RemoveAll emptied directories on which the user had write permission only","MemFS.RemoveAll by a non-administrator removed the entries of a directory he can write but not search or read (os.RemoveAll: EACCES, content kept); found both as a wrong success and as content missing after a refused call"),
 ("C10","fix: BasePathFS Remove and RemoveAll of the root directory acted on the base path itself","BasePathFS Remove(\"/\") answered ENOTEMPTY / removed an empty base directory, RemoveAll(\"/\") (also spelled /..) deleted the base directory itself; same on the view returned by Sub"),
 ("C06","fix: MemFS created entries in directories that had been removed since they were looked up","MemFS Mkdir/MkdirAll/OpenFile(O_CREATE)/Symlink/Link/Rename into a directory that a concurrent Remove, RemoveAll or Rename removed after the lookup (3 threads: Remove(/d/e/z) || Remove(/d/e) || Rename(/f,/d/e/f)): every call returned nil and the new entry or the moved tree was lost"),
+("C01","fix: MemFS.OpenFile(O_CREATE|O_EXCL) followed a symbolic link in the last element","MemFS OpenFile(O_CREATE|O_EXCL) on a name that is a symbolic link followed the link (created the target of a dangling link, or answered ELOOP/ENOENT/ENOTDIR/ok from the resolution) where open(2) answers EEXIST; concurrent form: exclusive create || Symlink || Rename all succeeding on one name"),
+("C04","fix: MemFS followed up to 64 symbolic links in a path","MemFS resolved chains of 41 to 64 symbolic links (Stat, Lstat, Open, ReadFile, ReadDir ... succeeded) where Linux answers ELOOP after 40"),
 ]
 log = subprocess.check_output(['git','-C','/repo','log','--format=%h %s','adfd2e3..HEAD']).decode().strip().split('\n')
 subj = {}
